@@ -158,6 +158,8 @@ fn roles_program(c: &J, context: usize) -> Vec<u8> {
             } else {
                 items.push(push_word(val));
             }
+        } else if context == 3 {
+            items.push(Item::Push(vec![(p * 0x30).min(0xf0) as u8]));
         } else {
             items.push(Item::Push(vec![(p as u8) * 4]));
         }
@@ -358,6 +360,11 @@ pub fn run(o: &Opts) -> R<()> {
             let c: J = serde_json::from_str(line).map_err(|e| e.to_string())?;
             let ctx = i % 3;
             cases.push((format!("roles:{}", ["direct", "computed", "after-fork"][ctx]), roles_program(&c, ctx), random_cfg(&mut rng)));
+            // the boundary constant next to operands that are not small either (a size of several words next to an
+            // offset at the edge of the host's index range, ...), under the library's default limits
+            if c["pops"].as_u64().unwrap_or(0) >= 2 {
+                cases.push(("roles:wide-others".into(), roles_program(&c, 3), default_cfg(rng.gen_bool(0.5))));
+            }
         }
     }
     for code in cyclic_programs() {
